@@ -255,4 +255,233 @@ theorem mRun_inv (s : MSys) (steps : List MStep) (h : MInv s) : MInv (mRun s ste
 
 theorem mInit_inv : MInv {} := ⟨rfl, by simp, by simp, by simp, rfl⟩
 
+/-! ### ReadyTarget -/
+
+structure RtSys where
+  r : Rt := {}
+  live : List Sub := []     -- subscriptions made since the last Reset and not unsubscribed
+deriving Repr
+
+inductive RtStep where
+  | subscribe (t : Nat)
+  | unsubscribe (id : Nat)
+  | signal (idx : Nat)
+  | reset
+deriving Repr, DecidableEq
+
+def rtStep (s : RtSys) : RtStep → RtSys
+  | .subscribe t => ⟨(s.r.subscribe t).1, s.live ++ [⟨(s.r.subscribe t).2, t⟩]⟩
+  | .unsubscribe id => ⟨s.r.unsubscribe id, s.live.filter (fun l => l.id != id)⟩
+  | .signal idx => ⟨s.r.signal idx, s.live⟩
+  | .reset => ⟨s.r.reset, []⟩
+
+def rtRun (s : RtSys) (steps : List RtStep) : RtSys := steps.foldl rtStep s
+
+theorem isClosed_iff (r : Rt) (id : Nat) : r.isClosed id = true ↔ ∃ c ∈ r.closed, c.id = id := by
+  simp [Rt.isClosed, List.any_eq_true]
+
+theorem isClosed_false_iff (r : Rt) (id : Nat) : r.isClosed id = false ↔ ∀ c ∈ r.closed, c.id ≠ id := by
+  rw [← Bool.not_eq_true, isClosed_iff]; simp
+
+theorem mem_eraseFirst_of_ne (id : Nat) (l : List Sub) (x : Sub) (hx : x ∈ l) (hne : x.id ≠ id) :
+    x ∈ eraseFirst id l := by
+  induction l with
+  | nil => cases hx
+  | cons a t ih =>
+    simp only [eraseFirst]
+    rcases List.mem_cons.1 hx with rfl | hx
+    · simp [hne]
+    · split
+      · exact hx
+      · exact List.mem_cons_of_mem _ (ih hx)
+
+theorem eraseFirst_sublist (id : Nat) (l : List Sub) : (eraseFirst id l).Sublist l := by
+  induction l with
+  | nil => exact List.Sublist.slnil
+  | cons a t ih =>
+    simp only [eraseFirst]
+    split
+    · exact List.sublist_cons_self _ _
+    · exact ih.cons_cons _
+
+theorem eq_of_nodup_map_id (l : List Sub) (h : (l.map (·.id)).Nodup) (x y : Sub)
+    (hx : x ∈ l) (hy : y ∈ l) (e : x.id = y.id) : x = y := by
+  induction l with
+  | nil => cases hx
+  | cons a t ih =>
+    simp only [List.map_cons, List.nodup_cons] at h
+    rcases List.mem_cons.1 hx with hxa | hxt
+    · rcases List.mem_cons.1 hy with hya | hyt
+      · rw [hxa, hya]
+      · have : a.id ∈ t.map (·.id) := List.mem_map.2 ⟨y, hyt, by rw [← e, hxa]⟩
+        exact absurd this h.1
+    · rcases List.mem_cons.1 hy with hya | hyt
+      · have : a.id ∈ t.map (·.id) := List.mem_map.2 ⟨x, hxt, by rw [e, hya]⟩
+        exact absurd this h.1
+      · exact ih h.2 hxt hyt
+
+structure RtInv (s : RtSys) : Prop where
+  never : ∀ c ∈ s.r.closed, c.target ≤ c.at_
+  pending : ∀ x ∈ s.r.subs, s.r.current < x.target
+  freshS : ∀ x ∈ s.r.subs, x.id < s.r.nextId
+  freshC : ∀ c ∈ s.r.closed, c.id < s.r.nextId
+  freshL : ∀ l ∈ s.live, l.id < s.r.nextId
+  nodup : (s.r.subs.map (·.id)).Nodup
+  subsOpen : ∀ x ∈ s.r.subs, s.r.isClosed x.id = false
+  liveInv : ∀ l ∈ s.live, (l.target ≤ s.r.current → s.r.isClosed l.id = true) ∧
+    (s.r.current < l.target → l ∈ s.r.subs)
+
+theorem rtInit_inv : RtInv {} := by
+  refine ⟨?_, ?_, ?_, ?_, ?_, ?_, ?_, ?_⟩ <;> simp
+
+theorem rtStep_inv (s : RtSys) (st : RtStep) (h : RtInv s) : RtInv (rtStep s st) := by
+  obtain ⟨hn, hp, hfs, hfc, hfl, hnd, hso, hl⟩ := h
+  cases st with
+  | subscribe t =>
+    simp only [rtStep, Rt.subscribe]
+    by_cases ht : t ≤ s.r.current
+    · simp only [ht, if_true]
+      refine ⟨?_, hp, ?_, ?_, ?_, hnd, ?_, ?_⟩
+      · intro c hc
+        rcases List.mem_append.1 hc with hc | hc
+        · exact hn c hc
+        · simp only [List.mem_singleton] at hc; subst hc; exact ht
+      · intro x hx; have := hfs x hx; simp only; omega
+      · intro c hc
+        rcases List.mem_append.1 hc with hc | hc
+        · have := hfc c hc; simp only; omega
+        · simp only [List.mem_singleton] at hc; subst hc; simp
+      · intro l hl'
+        rcases List.mem_append.1 hl' with hl' | hl'
+        · have := hfl l hl'; simp only; omega
+        · simp only [List.mem_singleton] at hl'; subst hl'; simp
+      · intro x hx
+        rw [isClosed_false_iff]
+        intro c hc
+        rcases List.mem_append.1 hc with hc | hc
+        · exact (isClosed_false_iff _ _).1 (hso x hx) c hc
+        · simp only [List.mem_singleton] at hc; subst hc
+          have := hfs x hx; simp only; omega
+      · intro l hl'
+        rcases List.mem_append.1 hl' with hl' | hl'
+        · refine ⟨fun hle => ?_, (hl l hl').2⟩
+          obtain ⟨c, hc, e⟩ := (isClosed_iff _ _).1 ((hl l hl').1 hle)
+          exact (isClosed_iff _ _).2 ⟨c, List.mem_append_left _ hc, e⟩
+        · simp only [List.mem_singleton] at hl'; subst hl'
+          refine ⟨fun _ => ?_, fun hlt => ?_⟩
+          · exact (isClosed_iff _ _).2 ⟨_, List.mem_append_right _ (List.mem_singleton.2 rfl), rfl⟩
+          · simp only at hlt; omega
+    · simp only [ht, if_false]
+      refine ⟨hn, ?_, ?_, ?_, ?_, ?_, ?_, ?_⟩
+      · intro x hx
+        rcases List.mem_append.1 hx with hx | hx
+        · exact hp x hx
+        · simp only [List.mem_singleton] at hx; subst hx; simp only; omega
+      · intro x hx
+        rcases List.mem_append.1 hx with hx | hx
+        · have := hfs x hx; simp only; omega
+        · simp only [List.mem_singleton] at hx; subst hx; simp
+      · intro c hc; have := hfc c hc; simp only; omega
+      · intro l hl'
+        rcases List.mem_append.1 hl' with hl' | hl'
+        · have := hfl l hl'; simp only; omega
+        · simp only [List.mem_singleton] at hl'; subst hl'; simp
+      · simp only [List.map_append, List.map_cons, List.map_nil]
+        rw [List.nodup_append]
+        refine ⟨hnd, by simp, ?_⟩
+        intro a ha b hb
+        simp only [List.mem_singleton] at hb
+        obtain ⟨x, hx, rfl⟩ := List.mem_map.1 ha
+        have := hfs x hx
+        omega
+      · intro x hx
+        rcases List.mem_append.1 hx with hx | hx
+        · exact hso x hx
+        · simp only [List.mem_singleton] at hx; subst hx
+          rw [isClosed_false_iff]
+          intro c hc
+          have := hfc c hc
+          simp only; omega
+      · intro l hl'
+        rcases List.mem_append.1 hl' with hl' | hl'
+        · exact ⟨(hl l hl').1, fun hlt => List.mem_append_left _ ((hl l hl').2 hlt)⟩
+        · simp only [List.mem_singleton] at hl'; subst hl'
+          exact ⟨fun hle => by simp only at hle; omega, fun _ => List.mem_append_right _ (List.mem_singleton.2 rfl)⟩
+  | unsubscribe id =>
+    simp only [rtStep, Rt.unsubscribe]
+    have hsub := eraseFirst_sublist id s.r.subs
+    refine ⟨hn, fun x hx => hp x (hsub.subset hx), fun x hx => hfs x (hsub.subset hx), hfc, ?_, ?_, ?_, ?_⟩
+    · intro l hl'; exact hfl l (List.mem_filter.1 hl').1
+    · exact (hsub.map _).nodup hnd
+    · intro x hx; exact hso x (hsub.subset hx)
+    · intro l hl'
+      obtain ⟨hm, hne⟩ := List.mem_filter.1 hl'
+      have hne' : l.id ≠ id := by simpa using hne
+      exact ⟨(hl l hm).1, fun hlt => mem_eraseFirst_of_ne _ _ _ ((hl l hm).2 hlt) hne'⟩
+  | signal idx =>
+    simp only [rtStep, Rt.signal]
+    by_cases hi : idx ≤ s.r.current
+    · simp only [hi, if_true]
+      exact ⟨hn, hp, hfs, hfc, hfl, hnd, hso, hl⟩
+    · simp only [hi, if_false]
+      have hgt : s.r.current < idx := by omega
+      refine ⟨?_, ?_, ?_, ?_, hfl, ?_, ?_, ?_⟩
+      · intro c hc
+        rcases List.mem_append.1 hc with hc | hc
+        · exact hn c hc
+        · obtain ⟨x, hx, rfl⟩ := List.mem_map.1 hc
+          have := (List.mem_filter.1 hx).2
+          simp only [ge_iff_le, decide_eq_true_eq] at this
+          exact this
+      · intro x hx
+        have := (List.mem_filter.1 hx).2
+        simp only [ge_iff_le, Bool.not_eq_eq_eq_not, Bool.not_true, decide_eq_false_iff_not, Nat.not_le] at this
+        exact this
+      · intro x hx; exact hfs x (List.mem_filter.1 hx).1
+      · intro c hc
+        rcases List.mem_append.1 hc with hc | hc
+        · exact hfc c hc
+        · obtain ⟨x, hx, rfl⟩ := List.mem_map.1 hc
+          exact hfs x (List.mem_filter.1 hx).1
+      · exact (List.filter_sublist.map _).nodup hnd
+      · intro x hx
+        obtain ⟨hxm, hxf⟩ := List.mem_filter.1 hx
+        simp only [ge_iff_le, Bool.not_eq_eq_eq_not, Bool.not_true, decide_eq_false_iff_not, Nat.not_le] at hxf
+        rw [isClosed_false_iff]
+        intro c hc
+        rcases List.mem_append.1 hc with hc | hc
+        · exact (isClosed_false_iff _ _).1 (hso x hxm) c hc
+        · obtain ⟨y, hy, rfl⟩ := List.mem_map.1 hc
+          obtain ⟨hym, hyf⟩ := List.mem_filter.1 hy
+          simp only [ge_iff_le, decide_eq_true_eq] at hyf
+          intro e
+          simp only at e
+          -- same id in a nodup id list means the same subscriber
+          have : y = x := eq_of_nodup_map_id _ hnd y x hym hxm e
+          subst this
+          omega
+      · intro l hl'
+        obtain ⟨ha, hb⟩ := hl l hl'
+        constructor
+        · intro hle
+          simp only at hle
+          by_cases hold : l.target ≤ s.r.current
+          · obtain ⟨c, hc, e⟩ := (isClosed_iff _ _).1 (ha hold)
+            exact (isClosed_iff _ _).2 ⟨c, List.mem_append_left _ hc, e⟩
+          · have hm := hb (by omega)
+            refine (isClosed_iff _ _).2 ⟨⟨l.id, l.target, idx⟩, List.mem_append_right _ ?_, rfl⟩
+            exact List.mem_map.2 ⟨l, List.mem_filter.2 ⟨hm, by simpa using hle⟩, rfl⟩
+        · intro hlt
+          simp only at hlt
+          have hm := hb (by omega)
+          exact List.mem_filter.2 ⟨hm, by simpa using hlt⟩
+  | reset =>
+    simp only [rtStep, Rt.reset]
+    refine ⟨hn, by simp, by simp, hfc, by simp, by simp, by simp, by simp⟩
+
+theorem rtRun_inv (s : RtSys) (steps : List RtStep) (h : RtInv s) : RtInv (rtRun s steps) := by
+  induction steps generalizing s with
+  | nil => exact h
+  | cons st steps ih => exact ih _ (rtStep_inv s st h)
+
 end RqModel.Rsync
